@@ -104,6 +104,7 @@ MUTANTS = [
     ("advection-3d-vector-y-advanced-twice", E3 + "advection_timestep_3d.py", "                    field=vector_field[z_axis_idx],", "                    field=vector_field[y_axis_idx],", ["C20", "C13", "C01"]),
     ("restart-max-over-strings", "sopht/utils/restart_sim.py", "iter_num = [int(filename.stem.split(\"_\")[-1]) for filename in Path.cwd().glob(\"sopht_*.h5\")]", "iter_num = [filename.stem.split(\"_\")[-1] for filename in Path.cwd().glob(\"sopht_*.h5\")]", ["C18"]),
     ("grid-constructor-velocity-before-position", RIG, "        self.compute_lag_grid_position_field()\n        self.compute_lag_grid_velocity_field()", "        self.compute_lag_grid_velocity_field()\n        self.compute_lag_grid_position_field()", ["C09", "C18"]),
+    ("passive-buffer-allocated-in-default-precision", "sopht/simulator/flow/passive_transport_flow_simulators.py", "self.buffer_scalar_field = np.zeros(self.grid_size, dtype=self.real_t)", "self.buffer_scalar_field = np.zeros(self.grid_size)", ["C01"]),
 ]
 
 # behaviour-preserving edits: every listed check must stay silent
